@@ -81,6 +81,103 @@ def chan(run, F):
         run.broke('receiver class %s is not in the channel matrix (tables/channels.json): add its row' % q)
 
 
+# ---------------------------------------------------------------------------------------------- R-CHAN-CTX
+CTX_TABLE = os.path.join(VERIF, 'tables', 'channel_ctx.json')
+
+
+def _try_has_connect(F, g, line):
+    """does the innermost try block of g around `line` (lambdas written inside it included) connect a successor?"""
+    inner = [tr for tr in g.get('try', []) if tr['try_begin'] <= line <= tr['try_end']]
+    if not inner: return False
+    tr = max(inner, key=lambda x: x['try_begin'])
+    lo, hi = tr['try_begin'], tr['try_end']
+    for fn in [g] + [l for l in F.lambdas_of(g) if lo <= l['line'] <= hi]:
+        for b in fn.get('blocks', []):
+            for e in b['elems']:
+                if e['k'] != 'call': continue
+                if fn is g and not (lo <= (e.get('line') or 0) <= hi): continue
+                if e['callee'].get('qname') == 'unifex::connect' or (e['callee'].get('name') or '').split('::')[-1] == 'connect': return True
+    return False
+
+
+def ctx_matrix(F):
+    """per receiver class and handler: {channel@context}; context = plain (reachable without any exception),
+    exc-successor (last exceptional edge leaves a try block that connects a successor operation: "the next stage
+    could not be created") or exc-local (last exceptional edge leaves a try block without a connect: a user
+    callable or a value copy threw)"""
+    gcache = {}
+    out = {}
+    for r in receiver_records(F):
+        fam = r['_family']; row = {}
+        for h in F.by_record.get(r['qname'], []):
+            if h['name'] not in HANDLERS or not h.get('blocks') or h.get('lambda'): continue
+            try:
+                S = Super(F, h, [fam], graph_cache=gcache)
+            except TooBig:
+                row.setdefault(h['name'], set()).add('<too-big>'); continue
+            terms = S.terminals()
+            if not terms: continue
+            plain = S.reach(S.entry, skip_exc=True)
+            after = {}
+            kinds = []
+            for a, lst in S.succ.items():
+                if S.ev[a].get('k') != 'call': continue
+                for b, lab in lst:
+                    if lab != 'exc': continue
+                    if b not in after: after[b] = S.reach(b, skip_exc=True)
+                    kinds.append((b, 'exc-successor' if _try_has_connect(F, S.fn[a], S.ev[a].get('line') or 0) else 'exc-local'))
+            for n, ch, p in terms:
+                if n in plain: row.setdefault(h['name'], set()).add(ch + '@plain')
+                for b, kd in kinds:
+                    if n in after[b]: row.setdefault(h['name'], set()).add(ch + '@' + kd)
+        if row: out[norm_rec(r['qname'])] = (r, {k: sorted(v) for k, v in row.items()})
+    return out
+
+
+@rule('R-CHAN-CTX', ['C05', 'C13'], floor=120)
+def chan_ctx(run, F):
+    """for every child-receiver handler, each reachable outer completion is classified by the condition under which it is reached - plain control flow, the handler of a try block that connects the successor operation ("next stage could not be created"), or the handler of a try block without a connect (a callable or a copy threw) - and the set of (channel, condition) pairs equals the frozen row: a stage is not skipped and an error is not delivered past the step that must run first (e.g. finally's completion sender)"""
+    with open(CTX_TABLE) as fh: tab = json.load(fh)['classes']
+    cur = ctx_matrix(F)
+    for q, row in sorted(tab.items()):
+        if F.config not in row.get('configs', [F.config]):
+            run.inst(q, 'class is compiled out in this configuration', nontrivial=False, key=(q, 'n/a')); continue
+        if q not in cur:
+            run.broke('receiver class %s of the channel-context matrix no longer exists' % q); continue
+        r, have = cur[q]
+        for h, want in sorted(row['handlers'].items()):
+            got = have.get(h)
+            if got is None:
+                run.broke('%s::%s of the channel-context matrix no longer exists' % (q, h)); continue
+            run.inst('%s:%s %s::%s' % (r['file'], r['line'], q, h), '%s -> %s' % (h, want), key=(q, h))
+            extra = sorted(set(got) - set(want)); missing = sorted(set(want) - set(got))
+            if extra:
+                run.violation(q + '::' + h, 'ctx-extra:' + ','.join(extra), '%s:%s' % (r['file'], r['line']),
+                              '%s of %s now reaches %s (frozen: %s): a completion is delivered under a condition under which the documented protocol first runs another step (or on plain flow where it was an error path only)' % (h, q.replace('unifex::', ''), extra, want))
+            if missing:
+                run.violation(q + '::' + h, 'ctx-missing:' + ','.join(missing), '%s:%s' % (r['file'], r['line']),
+                              '%s of %s no longer reaches %s (frozen: %s): that outcome is no longer reported under this condition' % (h, q.replace('unifex::', ''), missing, want))
+    for q in sorted(set(cur) - set(tab)):
+        run.broke('receiver class %s is not in the channel-context matrix (tables/channel_ctx.json): add its row' % q)
+
+
+def _freeze_generic(fn, path, doc):
+    from .. import extract
+    from ..facts import Facts
+    cfgs = ['d20', 'd17', 'r17', 'r20', 'v20']
+    files, _ = extract.extract(cfgs)
+    ms = {c: fn(Facts(files[c], c)) for c in cfgs}
+    classes = {}
+    for c in cfgs:
+        for q, (r, row) in sorted(ms[c].items()):
+            if q not in classes: classes[q] = dict(file=r['file'], handlers=row, configs=[c])
+            else:
+                classes[q]['configs'].append(c)
+                if classes[q]['handlers'] != row: print('DIFFERS between configurations', q, c, classes[q]['handlers'], row)
+    with open(path, 'w') as fh: json.dump(dict(_doc=doc, classes=classes), fh, indent=1)
+    print(len(classes), 'classes ->', path)
+
+
 def freeze():
     from .. import extract
     from ..facts import Facts
@@ -101,3 +198,4 @@ def freeze():
 
 if __name__ == '__main__':
     if '--freeze' in sys.argv: freeze()
+    if '--freeze-ctx' in sys.argv: _freeze_generic(ctx_matrix, CTX_TABLE, 'frozen channel-context matrix; see usa/rules/chan.py (R-CHAN-CTX)')
